@@ -12,6 +12,16 @@ for line in open(os.path.join(VERIF, "properties.jsonl"), encoding="utf-8"):
 
 # id -> (category, technique, text, level_note)
 CHECKS = {
+    "C01": (
+        "exploration",
+        "round-trip: independent RFC 7578 encoder -> baize decoders under generated and exhaustively enumerated chunkings (metamorphic: result independent of partition), 5 observers",
+        "Generated forms with hostile content (CR/LF/dashes/partial boundaries/look-alike boundaries, short boundaries, preamble, epilogue, padding, "
+        "3 charsets) are encoded by an independent encoder and decoded under: whole body, one byte at a time, EVERY single cut, pairs of cuts "
+        "around delimiters and CR/LF, and a drawn multi-cut list with empty chunks, through the event-level decoder, parse_stream, "
+        "parse_async_stream and Request.form on both interfaces; for tiny bodies all 2^(n-1) partitions are enumerated. Each result must "
+        "equal the encoded parts exactly.",
+        "Epilogue text may carry the padding/line break that followed the close delimiter. Names without quote/backslash/line break; ASCII-compatible charsets.",
+    ),
     "C03": (
         "exploration",
         "exhaustive enumeration of a small range-set domain + Hypothesis generation against a set-based reference resolver",
@@ -48,6 +58,16 @@ CHECKS = {
         "names/values and redirect targets (str and URL) are added and the response is sent through strict WSGI and ASGI gateways; the "
         "emitted header lines are inspected for CR/LF/NUL, extra cookie attributes and Location cleanliness.",
         "Constructor-supplied headers are outside the statement. Text above U+00FF may be rejected instead of escaped. Redirect targets compared after one percent-decoding.",
+    ),
+    "C15": (
+        "exploration",
+        "Hypothesis forms x limits at the exact totals (-1, 0, +1) x chunkings, differential sync/async; instrumented stream and file sink measuring retained bytes on 200 KB - 1 MB parts",
+        "413 must be raised exactly when the part count or the field-byte total exceeds the configured limit, identically by parse_stream and "
+        "parse_async_stream under whole/bytewise/drawn chunkings, and through Request.form with the default 324-part limit. Buffering: a "
+        "recording file sink and an instrumented stream measure, every time the helper asks for the next chunk, how many content bytes were "
+        "received but not yet written/counted; parts with an early lone CR/LF followed by up to 1 MB without another line break must stay "
+        "within one chunk + delimiter length + 8, at helper and at event level, and an over-limit field must be rejected within that bound.",
+        "Bound on retained bytes stands in for re-scan cost (no clock in an oracle). T = wire bytes of non-file content.",
     ),
     "C16": (
         "exploration",
